@@ -43,7 +43,10 @@ class ModelTable:
         inner = [h for h in hits if len(h[0]) <= len(segs)]
         if inner and len({id(h[1][0]) for h in inner}) == 1:
             return inner[0][1]
-        # longest common suffix wins if unique
+        # a trimmed path is unique in the build that printed it; in the sync build that is std's item
+        stdhits = [h for h in hits if h[0][0] in ("std", "core", "alloc")]
+        if stdhits and len({id(h[1][0]) for h in stdhits}) == 1 and segs[0] not in ("async_std", "tokio", "futures"):
+            return stdhits[0][1]
         raise Inconclusive("ambiguous model for %s: %s" % ("::".join(segs), ["::".join(h[0]) for h in hits]))
 
     def lookup_trait(self, trait, method, selfty, recv=None):
